@@ -32,7 +32,9 @@ SPEC = dict(
                 "now settles a failed job's manifest before compactFilesAdaptively retries the halves; C09_full_witness shows the fact is necessary "
                 "(duplicates without it; the harness duplicate monitors stay live). C09_level_witness is the one input class on which the CURRENT tree "
                 "still violates the property (known finding, reproduced on the real code): row loss when a job dedups at a coarser tag union than a "
-                "legacy/compacted input needs; hence the carve-out UniformLevel. C09_batches: SplitCandidateIntoBatches partitions the file "
+                "legacy/compacted input needs; hence the carve-out UniformLevel. C09_dedup_key_is_union / C09_dedup_union consume the regenerated fact "
+                "dedupKeyIsUnionOfInputTags (readTagColumnsFromParquetFiles accumulates over ALL inputs): the job's dedup key contains every input's declared "
+                "tag set, so no row of a TAGGED input collapses under a key coarser than its own file declares (nested and non-nested tag sets). C09_batches: SplitCandidateIntoBatches partitions the file "
                 "list. DuckDB's dedup is the hypothesis DedupSpec (never an axiom); the model is diffed against the real Manager/Job/recovery "
                 "in-process under crash/kill/torn-upload/recovery-error injection, rows compared by DuckDB scans."),
     technique="Lean 4 invariant proof over an executable model of the compaction cycle (job program and manifest recovery regenerated from Job.Run / recoverManifest), differential correspondence against the real Manager/Job with crash and kill injection",
